@@ -47,6 +47,7 @@ def showDec : Except DErr Term → String
   | .ok t => "ok " ++ t.text
   | .error .err => "err"
   | .error (.trailing n) => "trailing " ++ toString n
+  | .error .panic => "panic"
 
 def showEnc : Except EncErr Bytes → String
   | .ok b => "ok " ++ hexOf b
